@@ -346,6 +346,41 @@ theorem attval_roundtrip (s : List Char) (h : nbspChar ∉ s) :
 
 example : unescape (encode ['<', '@', '"']) = some ['<', '@', '"'] := by decide
 
+/-! ### directive arguments and options: the attribute-value writer of docutils' `starttag` -/
+
+/-- whatever text reaches an attribute through `attval` (image `alt`/`uri`/`target`, `class`,
+`name`, `title` — the arguments and options of reST directives): no `<`, `>`, `"` survives and every
+`&` starts an emitted entity. -/
+theorem attval_safe (s : List Char) : attrSafe (attval s) = true := by
+  unfold attval; exact encode_safe _
+
+theorem attval_no_markup (s : List Char) : ∀ c ∈ attval s, c ≠ '<' ∧ c ≠ '>' ∧ c ≠ '"' := by
+  intro c hc
+  unfold attval encode at hc
+  obtain ⟨y, _, hy⟩ := List.mem_flatMap.mp hc
+  exact mem_encodeChar hy
+
+/-- **C10 / starttag_attr_safe.** A start tag written by `starttag` with a directive argument as
+attribute value is the rendering of the tokens `open tag, attr name (attval value), startEnd`, and
+the attribute token is clean: the argument cannot close the value, the tag, or open another. -/
+theorem starttag_attr_safe (tag name value : List Char) (hn : validName name = true) :
+    starttag1 tag name value = render [.open tag, .attr name (attval value), .startEnd] ∧
+    tokSafe (.attr name (attval value)) = true ∧
+    nested st false ([.open tag, .attr name (attval value), .startEnd] ++ r) = nested (tag :: st) false r := by
+  refine ⟨?_, ?_, ?_⟩
+  · simp [starttag1, starttagAttr, render, renderTok]
+  · simp [tokSafe, hn, attval_safe]
+  · simp [nested]
+
+/-- what the attribute writer protects against: the same argument pasted by hand into
+`<pre class="rst-language-…">` (no `attval`) is not a clean attribute value -/
+theorem handbuilt_attr_counterexample :
+    attrSafe ['x', '"', '>', '<', 'b', '>'] = false ∧ attrSafe (attval ['x', '"', '>', '<', 'b', '>']) = true := by
+  decide
+
+example : starttag1 ['i', 'm', 'g'] ['a', 'l', 't'] ['"', '<'] =
+    ['<', 'i', 'm', 'g', ' ', 'a', 'l', 't', '=', '"', '&', 'q', 'u', 'o', 't', ';', '&', 'l', 't', ';', '"', '>'] := by decide
+
 
 /-! ## comments -/
 
